@@ -626,7 +626,7 @@ func TestNameSets(t *testing.T) {
 		Check:      checkNames,
 		NonTrivial: nameNonTrivial,
 		Classes:    nameClasses,
-		Quick:      2500, Thorough: 12000,
+		Quick:      4000, Thorough: 15000,
 	})
 }
 
@@ -644,8 +644,13 @@ type schemaResult struct {
 	messages, clashes, excluded, pkgIgnored int
 }
 
+// lastSchema is the result of the most recent checkSchemaNames call (pbt classifies a case right
+// after checking it, on the same goroutine).
+var lastSchema schemaResult
+
 func checkSchemaNames(c schemaCase) error {
-	_, err := runSchemaNames(c, true)
+	r, err := runSchemaNames(c, true)
+	lastSchema = r
 	return err
 }
 
@@ -672,6 +677,28 @@ func runSchemaNames(c schemaCase, exclude bool) (schemaResult, error) {
 	genH, err := gencode.Plugin(reqH)
 	if err != nil {
 		return res, fmt.Errorf("harness: %v", err)
+	}
+	// ... and the API level every message really gets (edition 2024 files default to the opaque API
+	// whatever default_api_level says)
+	genA, err := gencode.Plugin(req)
+	if err != nil {
+		return res, fmt.Errorf("harness: %v", err)
+	}
+	levels := map[string]map[string]string{}
+	var walkA func(pkg string, ms []*protogen.Message)
+	walkA = func(pkg string, ms []*protogen.Message) {
+		for _, m := range ms {
+			if levels[pkg] == nil {
+				levels[pkg] = map[string]string{}
+			}
+			levels[pkg][m.GoIdent.GoName] = levelName(m.APILevel.String())
+			walkA(pkg, m.Messages)
+		}
+	}
+	for _, f := range genA.Files {
+		if f.Generate {
+			walkA(string(f.GoImportPath), f.Messages)
+		}
 	}
 	models := map[string]map[string]*model{} // Go import path -> Go type name -> model
 	var walk func(pkg string, ms []*protogen.Message)
@@ -713,6 +740,9 @@ func runSchemaNames(c schemaCase, exclude bool) (schemaResult, error) {
 				continue // wrapper / interface members follow from a package-level type clash
 			}
 			m := models[pkg][strings.TrimSuffix(k.Type, "_builder")]
+			if lv := levels[pkg][strings.TrimSuffix(k.Type, "_builder")]; lv != "" && !strings.HasPrefix(k.Level, "opaque") {
+				k.Level = lv
+			}
 			if m == nil {
 				return res, fmt.Errorf("generated code does not compile: %v in %s (no message of that Go name in the model)", k, name)
 			}
@@ -758,7 +788,7 @@ func TestSchemaSets(t *testing.T) {
 		},
 		Classes: func(c schemaCase) []string {
 			cl := []string{"level:" + levelName(c.Level)}
-			if r, err := runSchemaNames(c, false); err == nil {
+			if r := lastSchema; true {
 				if r.excluded > 0 {
 					cl = append(cl, "has-known-clash")
 				}
